@@ -295,6 +295,7 @@ def _hd_model(cx, rep, port, p, mod, fd):
         ('naming rules', 'no join table', H, None, [star(None), idx('b', 0), star('b'), qci()], [A0, A1, 'col3', 'col4']),
         ('no input header', 'no header, no alias', None, None, [idx('a', 0), None], None),
         ('no input header', 'no header, alias', None, None, [idx('a', 0), qci(alias_name=L1), None], ['col1', L1, 'col3']),
+        ('no input header', 'no header, alias next to a named column', None, None, [qci(column_name=N1), qci(alias_name=L1), idx('a', 0)], [N1, L1, 'col3']),
         ('no input header', 'no header, alias and star', None, None, [star(None), qci(alias_name=L1)], 'RbqlParsingError'),
         ('no input header', 'no header, alias and a.*', None, None, [qci(alias_name=L1), star('a')], 'RbqlParsingError'),
         ('no input header', 'no header, alias and b.*', None, None, [star('b'), qci(alias_name=L1)], 'RbqlParsingError'),
